@@ -108,17 +108,10 @@ pub fn print_js<'a>(
     let final_source_map = chain_source_maps(source_map, &original_source_map.source, config)
         .unwrap_or_else(|| String::from(source_map));
 
-    let final_code = if config.print_comments {
-        match &original_source_map.source_map_comment {
-            Some(comment) => {
-                debug!("Replacing original sourceMappingUrl comment: {comment}");
-                code.replace(comment.as_str(), "").into()
-            }
-            _ => code.into(),
-        }
-    } else {
-        code.into()
-    };
+    // the superseded sourceMappingURL comment is dropped from the comments before printing
+    // (see transform_js): replacing its text here would also alter string literals and
+    // regular expressions that merely contain the same text
+    let final_code: Cow<'a, str> = code.into();
 
     if final_source_map.is_empty() {
         debug!("No sourcemap available");
@@ -199,6 +192,9 @@ fn transform_js<R: Read>(
             // extract sourcemap before printing otherwise comments are consumed
             // and looks like it is not possible to read them after compiler.print() invocation
             let original_source_map = extract_source_map(file, compiler.comments(), file_reader);
+            if config.print_comments {
+                remove_source_map_comment(compiler.comments(), &original_source_map);
+            }
 
             compiler
                 .print(&program, print_args)
@@ -337,6 +333,17 @@ fn extract_source_map<R: Read>(
     OriginalSourceMap {
         source,
         source_map_comment,
+    }
+}
+
+fn remove_source_map_comment(comments: &SwcComments, original_source_map: &OriginalSourceMap) {
+    if let Some(source_map_comment) = &original_source_map.source_map_comment {
+        debug!("Removing original sourceMappingUrl comment: {source_map_comment}");
+        for mut trailing in comments.trailing.iter_mut() {
+            trailing
+                .value_mut()
+                .retain(|comment| comment.text.as_str() != source_map_comment.as_str());
+        }
     }
 }
 
